@@ -156,10 +156,31 @@ def validate_shard(path):
     return r
 
 
-def sim_batch(tier):
-    """generates (or loads from the cache) the shared batch of real
-    executions for this tree / tier / seed and TLC's verdicts on it."""
-    key = tree_key("simbatch", tier, seed())
+def _make_sim_traces(tier):
+    from harness import batch
+    joblist = batch.jobs(tier, seed())
+    return batch.make_traces(joblist, workers=NCPU)
+
+
+def _make_api_traces(tier):
+    from harness import api_cluster as A
+    from concurrent.futures import ProcessPoolExecutor
+    cfg = A.api_cfg()
+    tick = {"op": "Tick"}
+    depth = 2 if tier == "quick" else 3
+    hs = [h + [tick, tick, tick] for h in A.histories(depth)]
+    hs += A.random_histories(seed(), 300 if tier == "quick" else 3000)
+    with ProcessPoolExecutor(max_workers=NCPU) as ex:
+        return list(ex.map(A.run_history, [cfg] * len(hs), hs, chunksize=16))
+
+
+BUILDERS = {"simbatch": _make_sim_traces, "apibatch": _make_api_traces}
+
+
+def trace_batch(name, tier):
+    """generates (or loads from the cache) a batch of real executions for
+    this tree / tier / seed and TLC's verdicts on it."""
+    key = tree_key(name, tier, seed())
     d = os.path.join(CACHE, key)
     os.makedirs(CACHE, exist_ok=True)
     lock = open(os.path.join(CACHE, key + ".lock"), "w")
@@ -172,10 +193,10 @@ def sim_batch(tier):
         shutil.rmtree(d, ignore_errors=True)
         os.makedirs(d)
         t0 = time.time()
-        sys.path.insert(0, VERIF)
+        if VERIF not in sys.path:
+            sys.path.insert(0, VERIF)
         from harness import batch
-        joblist = batch.jobs(tier, seed())
-        traces = batch.make_traces(joblist, workers=NCPU)
+        traces = BUILDERS[name](tier)
         t_run = time.time() - t0
         paths = batch.write_shards(traces, d, nshards=NCPU)
         t1 = time.time()
@@ -191,7 +212,7 @@ def sim_batch(tier):
             done_tids = {v["tid"] for v in vs if v["kind"] == "DONE"}
             if done_tids != set(range(1, len(gids) + 1)):
                 raise MachineryError(f"trace shard {p}: TLC did not consume every trace "
-                                     f"({sorted(done_tids)} of {len(gids)})")
+                                     f"({len(done_tids)} of {len(gids)})\n" + r["out"][-2000:])
             for v in vs:
                 if v["kind"] == "DONE":
                     steps += v["l"]
@@ -207,6 +228,8 @@ def sim_batch(tier):
                            "shard": os.path.basename(p), "tid": j + 1,
                            "nobs": len(tr["cfg"]["obs"]),
                            "ntasks": sum(len(o["wf"]["nodes"]) for o in tr["cfg"]["obs"])}
+                if "ops" in tr:
+                    meta[g]["ops"] = len(tr["ops"])
         res = {"key": key, "tier": tier, "seed": seed(), "ntraces": len(traces), "steps": steps,
                "verdicts": verdicts, "meta": meta, "t_run": t_run, "t_tlc": time.time() - t1}
         with open(done, "w") as f:
@@ -215,6 +238,10 @@ def sim_batch(tier):
     finally:
         fcntl.flock(lock, fcntl.LOCK_UN)
         lock.close()
+
+
+def sim_batch(tier):
+    return trace_batch("simbatch", tier)
 
 
 def load_trace(batch_dir, meta):
